@@ -1,6 +1,7 @@
 (* C05 — property theorems only. *)
 From Coq Require Import ZArith List Bool String.
-From Verif Require Import C04.Model C04.Proofs Common.LockIR C05.Model C05.Proofs C05.GenOk gen.Gen_C05.
+From Verif Require Import C04.Model C04.Proofs Common.LockIR Common.Reduction C05.Model C05.Proofs C05.GenOk
+  C05.Reduction gen.Gen_C05.
 Import ListNotations.
 Open Scope Z_scope.
 
@@ -73,3 +74,103 @@ Print Assumptions c05_safety_preserved.
 Theorem Gen_C05_ok : gen_c05_ok = true.
 Proof. exact gen_c05_ok_proof. Qed.
 Print Assumptions Gen_C05_ok.
+
+(* ---------------------------------------------------------------------- *)
+(* The coarse semantics above (one critical section = one atomic action) is
+   justified by a reduction theorem (Common/Reduction.v, C05/Reduction.v)
+   instead of being assumed.  Fine-grained machine: one extracted instruction
+   of one thread per step, any schedule, any number of threads and stores,
+   locks with owner and hold count.  [compile_threads] turns the translator's
+   instruction lists of the CURRENT source (gen_methods) into such programs,
+   for an arbitrary interpretation (i_access, i_local) of what each access,
+   callback and local line computes. *)
+
+(* The programs of any calls to the locked methods are well-formed: lock-
+   bracketed, one lock at a time, store l accessed only under lock l. *)
+Theorem c05_locked_methods_well_formed :
+  forall (St Lo : Type)
+         (i_access : op -> string -> nat -> string -> bool -> St -> Lo -> St * Lo)
+         (i_local : op -> string -> nat -> Lo -> Lo)
+         (threads : list (Lo * list op)),
+    Forall (locked_calls Lo) threads ->
+    wf_threads (reentrant gen_lock_kind) (compile_threads St Lo i_access i_local gen_methods threads).
+Proof. intros. apply compile_threads_wf; [exact gen_methods_ok|assumption]. Qed.
+Print Assumptions c05_locked_methods_well_formed.
+
+(* Every terminated fine-grained execution of any threads calling any of the
+   locked methods on any stores has a coarse execution (whole sections as
+   single steps, no locks) of the same programs from the same stores and
+   locals, ending with the SAME stores and the SAME local states - for every
+   interpretation of the accesses. *)
+Theorem c05_fine_grained_reduces_to_coarse :
+  forall (St Lo : Type)
+         (i_access : op -> string -> nat -> string -> bool -> St -> Lo -> St * Lo)
+         (i_local : op -> string -> nat -> Lo -> Lo)
+         (mem : list St) (threads : list (Lo * list op)) (s : list nat) (F : fcfg St Lo),
+    Forall (locked_calls Lo) threads ->
+    fine_exec (reentrant gen_lock_kind)
+              (init_f mem (compile_threads St Lo i_access i_local gen_methods threads)) s F ->
+    finished (fths F) ->
+    exists cs C,
+      coarse_exec (init_c mem (compile_threads St Lo i_access i_local gen_methods threads)) cs C /\
+      cmem C = fmem F /\ cths C = fths F.
+Proof. intros St Lo ia il mem threads s F. apply fine_grained_reduces. exact gen_methods_ok. Qed.
+Print Assumptions c05_fine_grained_reduces_to_coarse.
+
+(* Unfinished executions: at every point of a fine-grained execution at which
+   no lock is held, the stores and local states ARE a state of the coarse
+   semantics (so its invariants, e.g. c05_inv_every_step, hold there). *)
+Theorem c05_fine_quiescent_states_are_coarse :
+  forall (St Lo : Type)
+         (i_access : op -> string -> nat -> string -> bool -> St -> Lo -> St * Lo)
+         (i_local : op -> string -> nat -> Lo -> Lo)
+         (mem : list St) (threads : list (Lo * list op)) (s : list nat) (F : fcfg St Lo),
+    Forall (locked_calls Lo) threads ->
+    fine_exec (reentrant gen_lock_kind)
+              (init_f mem (compile_threads St Lo i_access i_local gen_methods threads)) s F ->
+    quiescent F ->
+    exists cs C,
+      coarse_exec (init_c mem (compile_threads St Lo i_access i_local gen_methods threads)) cs C /\
+      cmem C = fmem F /\ cths C = fths F.
+Proof. intros St Lo ia il mem threads s F. apply fine_quiescent_is_coarse. exact gen_methods_ok. Qed.
+Print Assumptions c05_fine_quiescent_states_are_coarse.
+
+(* At EVERY step of every fine-grained execution, each store that is not
+   locked at that moment satisfies every per-store invariant of the coarse
+   semantics. *)
+Theorem c05_fine_unlocked_store_invariant :
+  forall (St Lo : Type)
+         (i_access : op -> string -> nat -> string -> bool -> St -> Lo -> St * Lo)
+         (i_local : op -> string -> nat -> Lo -> Lo)
+         (mem : list St) (threads : list (Lo * list op)) (P : St -> Prop),
+    Forall (locked_calls Lo) threads ->
+    (forall cs C,
+        coarse_exec (init_c mem (compile_threads St Lo i_access i_local gen_methods threads)) cs C ->
+        Forall P (cmem C)) ->
+    forall s F l x,
+      fine_exec (reentrant gen_lock_kind)
+                (init_f mem (compile_threads St Lo i_access i_local gen_methods threads)) s F ->
+      flocks F l = None -> nth_error (fmem F) l = Some x -> P x.
+Proof. intros St Lo ia il mem threads P. apply fine_unlocked_store_invariant. exact gen_methods_ok. Qed.
+Print Assumptions c05_fine_unlocked_store_invariant.
+
+(* The simulation invariant behind the three theorems, along every prefix of
+   every fine-grained execution of well-formed programs (generic). *)
+Theorem c05_simulation_every_prefix :
+  forall (St Lo : Type) (r : bool) (mem : list St) (ths : list (fthread St Lo)) s F,
+    wf_threads r ths ->
+    fine_exec r (init_f mem ths) s F ->
+    exists cs C, coarse_exec (init_c mem ths) cs C /\ sim r F C.
+Proof. exact simulation_invariant. Qed.
+Print Assumptions c05_simulation_every_prefix.
+
+(* The lock discipline is needed: with one access outside the lock there is a
+   terminated fine-grained execution (a lost update) whose final store no
+   coarse execution produces. *)
+Theorem c05_lock_discipline_needed :
+  (exists s F, fine_exec false (init_f [0%nat] Example.bad_threads) s F /\
+               finished (fths F) /\ fmem F = [1%nat]) /\
+  (forall cs C, coarse_exec (init_c [0%nat] Example.bad_threads) cs C ->
+                finished (cths C) -> cmem C <> [1%nat]).
+Proof. exact Example.wf_hypothesis_needed. Qed.
+Print Assumptions c05_lock_discipline_needed.
